@@ -52,6 +52,13 @@ type Sched struct {
 	overflow    bool
 	probes      [64]probeEnt
 	born        int
+	cids        [256]cidEnt
+	ncids       int
+}
+
+type cidEnt struct {
+	addr string
+	id   int64
 }
 
 type panicRec struct {
@@ -402,4 +409,31 @@ func (s *Sched) inSelect(id int64) bool {
 	s.mu.Unlock()
 	raceOn()
 	return r
+}
+
+//go:norace
+func (s *Sched) clientBorn(id int64, addr string) {
+	raceOff()
+	s.mu.Lock()
+	if s.ncids < len(s.cids) {
+		s.cids[s.ncids] = cidEnt{addr: addr, id: id}
+		s.ncids++
+	}
+	s.mu.Unlock()
+	raceOn()
+}
+
+//go:norace
+func (s *Sched) clientIdOf(addr string) int64 {
+	raceOff()
+	s.mu.Lock()
+	var id int64
+	for i := 0; i < s.ncids; i++ {
+		if s.cids[i].addr == addr {
+			id = s.cids[i].id
+		}
+	}
+	s.mu.Unlock()
+	raceOn()
+	return id
 }
